@@ -71,6 +71,38 @@ Theorem c11_no_runtime_panic :
 Proof. exact no_runtime_panic. Qed.
 Print Assumptions c11_no_runtime_panic.
 
+(* stage 2 (partial): the express lanes.  For EVERY assignment of heights 1..levels to the
+   nodes of a strictly sorted chain and every search predicate that is downward closed in the
+   (score, member) order — those of Insert/Delete (before), GetRank (before_eq),
+   DeleteRangeByScore/FirstInRange (score < min), LastInRange (score <= max) are — the
+   top-down search over the lanes, with forward links to the next node of sufficient height and
+   spans = distances (what Run.v validates on every probe), ends at the same node and with the
+   same summed rank as the level-0 scan the stage-1 model uses. *)
+Theorem c11_lane_search_eq_scan :
+  forall (P : entry -> bool) (levels : nat) (nodes : list (nat * entry)),
+    ssorted (map snd nodes) -> downward P ->
+    Forall (fun n => (1 <= fst n <= levels)%nat) nodes ->
+    search P levels 0 nodes = scan P 0 nodes.
+Proof. exact zset_lane_search. Qed.
+Print Assumptions c11_lane_search_eq_scan.
+
+Theorem c11_search_predicates_downward :
+  forall s e m : Z,
+    downward (fun x => before x s e) /\ downward (fun x => before_eq x s e) /\
+    downward (fun x => score x <? m) /\ downward (fun x => score x <=? m).
+Proof.
+  intros s e m. split; [exact (downward_before s e)|]. split; [exact (downward_before_eq s e)|].
+  split; [exact (downward_score_lt m)|exact (downward_score_le m)].
+Qed.
+Print Assumptions c11_search_predicates_downward.
+
+Example c11_example_lanes :
+  let nodes : list (nat * entry) :=
+    [(1%nat, (10, 1)); (3%nat, (10, 4)); (1%nat, (20, 2)); (2%nat, (20, 7)); (1%nat, (30, 3))] in
+  search (fun x => before x 20 7) 3 0 nodes = (3%nat, [(2%nat, (20, 7)); (1%nat, (30, 3))]) /\
+  scan (fun x => before x 20 7) 0 nodes = (3%nat, [(2%nat, (20, 7)); (1%nat, (30, 3))]).
+Proof. vm_compute. split; reflexivity. Qed.
+
 (* non-vacuity: the history of defect 20 — scores {10, 20, 30}, RemoveRangeByScore(10, 20)
    removes the two members at 10 and 20 — and ties, negative ranks, reverse ranges *)
 Example c11_example :
